@@ -23,6 +23,9 @@ def space(name, body):
     return X.text_space(len(body), thin=2 if len(body) > 1500 else 1)
 
 
+weight = X.text_weight
+
+
 def commands(name):
     if name.startswith('kmi-'):
         return ['abidiff-kmi']
@@ -30,7 +33,7 @@ def commands(name):
 
 
 def applies(cmd, fi, f):
-    return cmd in ('abidiff-suppr', 'abidiff-kmi') or (cmd == 'abidw-suppr' and fi % 3 == 0) or (cmd == 'abicompat-suppr' and fi % 3 == 1)
+    return cmd in ('abidiff-suppr', 'abidiff-kmi') or (cmd == 'abidw-suppr' and fi % 4 == 0) or (cmd == 'abicompat-suppr' and fi % 4 == 1)
 
 
 def command(ctx, it, cmd, dmg):
